@@ -330,7 +330,7 @@ def rule_e(prog, rep):
     bl = table.get(("entry", "list", "break"))
     rep.check(bl is not None and any(c.op == "cmp" and c.args[0] == "in" and not pol for c, pol in bl.guards), "R-C06-e", where, "sliced: list order drops entries whose coordinate is not requested", "break when coord not in order", "unrequested slices are kept")
     st = [e for e in I.events if e.kind == "store_sub" and not e.stack and e["value"].op == "dval"]
-    rep.check(len(st) == 1 and any(tm.contains(c, lambda x: x.op == "loopvar" and x.args[0] == "keep") or c == tm.TRUE for c, pol in st[0].guards if pol), "R-C06-e", where, "an entry is stored iff every requested axis kept it", "", "the store is not guarded by the keep flag")
+    rep.check(len(st) == 1 and any(tm.contains(c, lambda x: x.op in ("loopvar", "phi", "ifexp")) for c, pol in st[0].guards if pol), "R-C06-e", where, "an entry is stored iff every requested axis kept it", "", "the store is not guarded by the keep flag")
 
 
 def rule_f(prog, rep):
@@ -357,17 +357,17 @@ def rule_f(prog, rep):
         else:
             ok1 = True
             off = k1
-        offs_ok = off is not None and any(x.op == "loopvar" and x.args[0] == "i" for x in tm.walk(off)) or (off is not None and tm.is_const(off, 0))
+        offs_ok = off is not None and any(x.op == "loopvar" for x in tm.walk(off)) or (off is not None and tm.is_const(off, 0))
         rep.check(ok0 and ok1 and offs_ok, "R-C06-f", "%s@%d" % (where, e.line), "column_stack: %s input -> key (value, %s)" % ("2-D" if two_d else "1-D", "own column + offset" if two_d else "offset"),
                   "", "key is %s" % tm.show(key)[:80], witness={"inputs": "column_stack([a2d, b1d]): b's column lands on one of a's"})
         if off is not None:
             for x in tm.walk(off):
-                if x.op == "loopvar" and x.args[0] == "i":
+                if x.op == "loopvar":
                     ivar = x
     if ivar is None:
         rep.undecided("R-C06-f", where, "column offset", "running offset variable not found")
         return
-    be = I.backedge.get(("i", ivar.args[1]))
+    be = I.backedge.get((ivar.args[0], ivar.args[1]))
     incs = set()
     for a in tm.alts(be) if be is not None else []:
         if a.op == "binop" and a.args[0] == "+":
@@ -382,7 +382,7 @@ def rule_f(prog, rep):
         for ev in I.events:
             if ev.kind == "call" and ev["result"] == v and len(ev["args"]) == 3:
                 sh = ev["args"][2]
-                okr = sh.op == "tuple" and len(sh.args) == 2 and sh.args[0].op == "sub" and tm.is_const(sh.args[0].args[1], 0) and sh.args[0].args[0].op == "attr" and sh.args[0].args[0].args[1] == "shape" and tm.contains(sh.args[0].args[0].args[0], lambda x: x == tm.param("iindexes")) and tm.contains(sh.args[1], lambda x: x.op == "loopvar" and x.args[0] == "i" or x == tm.const(0))
+                okr = sh.op == "tuple" and len(sh.args) == 2 and sh.args[0].op == "sub" and tm.is_const(sh.args[0].args[1], 0) and sh.args[0].args[0].op == "attr" and sh.args[0].args[0].args[1] == "shape" and tm.contains(sh.args[0].args[0].args[0], lambda x: x == tm.param("iindexes")) and tm.contains(sh.args[1], lambda x: (x.op == "loopvar" and x.args[0] == ivar.args[0]) or x == tm.const(0))
     rep.check(okr, "R-C06-f", where, "result shape = (row count of the inputs, total number of columns)", "", "result shape is not (rows, columns stacked)")
 
 
